@@ -24,6 +24,7 @@ PROFILES = [
     ("bits", dict(kind="bits")),
     ("mixed", dict(kind="mixed")),
     ("bitstruct", None),
+    ("bits-unaligned", "unaligned"),
     ("text-nonascii", dict(kind="text", non_ascii=0.3)),
 ]
 
@@ -56,7 +57,11 @@ def build(c):
 
     rng = random.Random(c["gseed"])
     prof = dict(PROFILES)[c["profile"]]
-    if prof is None:
+    if prof == "unaligned":
+        rules = specgen.unaligned_bits_grammar(rng)
+        model = RefGrammar(specgen.model_rules(rules))
+        feats = specgen.syntactic_features(rules) | {"bits-unaligned"}
+    elif prof is None:
         rules = specgen.bitstruct_grammar(rng)
         model = RefGrammar(specgen.model_rules(rules))
         feats = specgen.syntactic_features(rules) | {"bitstruct"}
@@ -98,6 +103,12 @@ def run_case(c):
             inp = inputs.to_input(w, binary)
             if inp is not None:
                 pool.append((st, inp))
+            elif binary and len(w) % 8:
+                # a word that is not a whole number of bytes, completed to bytes with arbitrary bits: the input belongs to
+                # the language only if all of it is derived (the reference decides)
+                padded = w + "".join(rng.choice("01") for _ in range(8 - len(w) % 8))
+                pool.append((st, inputs.to_input(padded, binary)))
+                stats["inputs_from_unaligned_words"] += 1
     random.seed(c["seed"])
     for _ in range(8):
         try:
